@@ -260,7 +260,9 @@ def handleRt (toks impl : List String) : String :=
         -- every document an encoder writes: also the second one
         let again := (field impl "again").getD "same"
         let v13 := v13.orElse fun _ => if again != "same" then some s!"VIOL clause=lt.second_document got={again}" else none
-        let first := if pflag == "P=C01" then v01.orElse (fun _ => v13) else v13.orElse (fun _ => v01)
+        -- (a C13 run does not stop at C01's clauses — C01's own run reports those — so that the model
+        -- correspondence below is evaluated for every case it serves)
+        let first := if pflag == "P=C01" then v01.orElse (fun _ => v13) else v13
         match first with
         | some v => v
         | none =>
